@@ -98,12 +98,22 @@ def r2_resolvability(chk: Check) -> None:
         chk.undecided("C10.R2", inner, "parameter kwargs comprehension", "not found", inner.loc())
     else:
         conds = " and ".join(unparse(c, 300) for g in comp.generators for c in g.ifs)
-        chk.expect("isinstance(extracted.value, Ok)" in conds, "C10.R2", inner, "parameter used only if isinstance(extracted.value, Ok)", "values of failed extractions (Err) are dereferenced / sent", inner.loc(comp))
-        chk.expect("UNRESOLVABLE" in conds and "not in" in conds, "C10.R2", inner, "parameter used only if not UNRESOLVABLE", "an unresolvable extraction result is sent as the parameter value", inner.loc(comp))
+        cond_names = {x for g in comp.generators for c in g.ifs for x in names_in(c)}
+        if "Ok" not in cond_names and "Err" not in cond_names:
+            chk.violation("C10.R2", inner, "parameter used only if isinstance(extracted.value, Ok)", "the comprehension no longer tests the Result kind: `.ok()` of a failed extraction is dereferenced / sent", inner.loc(comp))
+        else:
+            chk.expect("isinstance(extracted.value, Ok)" in conds, "C10.R2", inner, "parameter used only if isinstance(extracted.value, Ok)", "values of failed extractions (Err) are dereferenced / sent", inner.loc(comp))
+        if "UNRESOLVABLE" not in cond_names:
+            chk.violation("C10.R2", inner, "parameter used only if not UNRESOLVABLE", "the comprehension no longer compares with UNRESOLVABLE: the sentinel of an unresolvable expression is sent as the parameter value", inner.loc(comp))
+        else:
+            chk.expect("UNRESOLVABLE" in conds and "not in" in conds, "C10.R2", inner, "parameter used only if not UNRESOLVABLE", "an unresolvable extraction result is sent as the parameter value", inner.loc(comp))
     for n in walk_body(inner.node):
         if isinstance(n, ast.If) and "transition.request_body" in unparse(n.test, 600):
             t = unparse(n.test, 600)
             which = "merge" if "link.merge_body" in t and "not link.merge_body" not in t else "replace"
+            if "UNRESOLVABLE" not in names_in(n.test) or "Ok" not in names_in(n.test):
+                chk.violation("C10.R2", inner, f"request body ({which}) used only if Ok and not UNRESOLVABLE", f"guard `{t[:120]}` no longer tests Ok / UNRESOLVABLE: an unresolved or failed body is sent", inner.loc(n))
+                continue
             chk.expect("isinstance(transition.request_body.value, Ok)" in t and "is not UNRESOLVABLE" in t and "is not None" in t, "C10.R2", inner,
                        f"request body ({which}) used only if Ok and not UNRESOLVABLE", f"guard `{t[:120]}` lets an unresolved / failed body through", inner.loc(n))
     merges = [n for n in walk_body(inner.node) if isinstance(n, ast.Assign) and unparse(n.targets[0]) == "case.body" and isinstance(n.value, ast.Dict)]
